@@ -328,6 +328,73 @@ static void reject_case(Ctx& ctx, Kind kind, int L, int M) {
     if (M > 1) ctx.nontrivial();
 }
 
+// ------------------------------------------------------------------------------------------------ scale invariance with framing
+// The converters are linear and threshold free: a multi-frame history fed with the input multiplied by 2^e must give the
+// unit-scale output times 2^e - within the chain tolerance relative to the record's own amplitude and, as on the unchanged
+// tree, bit for bit (no intermediate under- or overflows for e in {-110, -300, -600, +300}).  At least 3 frames per history.
+static void chain_scale_case(Ctx& ctx, Kind kind, int L, int M, int mul, const std::string& hk, int nh) {
+    const char* site = kind == INTERP ? "FIRInterpolator::process"
+                       : kind == DECIM ? "FIRDecimator::process"
+                       : kind == RATE  ? "FIRRateConverter::process"
+                                       : "FIRResampler::process";
+    arr_real ha;
+    const arr_real* hp = nullptr;
+    int hl = nh;
+    try {
+        if (hk != "default") {
+            ha = to_arr(sym_dense(nh));
+            hp = &ha;
+        } else {
+            hl = dsplib::design_multirate_fir(L, M).size();
+        }
+    } catch (const std::exception& e) {
+        ctx.fail("design_multirate_fir", fmt("exception: %s", e.what()), "a coefficient vector", P().kv("what", "throw"));
+        return;
+    }
+    // long enough for the history to matter in every frame: >= 12 frames of M and >= 2 filter lengths
+    const int nin = M * std::max(12, 2 * ((hl / L + M) / M) + 6);
+    std::vector<double> x((size_t)nin);
+    for (int n = 0; n < nin; ++n) x[(size_t)n] = lcg_val(861, (uint64_t)n);
+    long nbit = 0;
+    for (int fr : {M, 2 * M, -1, -2}) {
+        RunOut y1 = run(kind, L, M, mul, hp, x, fr);
+        if (!y1.err.empty()) {
+            ctx.fail(site, y1.err, "no exception, len*L/M samples per call", P().kv("frame", fr).kv("e", 0).kv("what", y1.threw ? "throw" : "size"));
+            return;
+        }
+        double ymax = 0;
+        for (double v : y1.y) ymax = std::max(ymax, std::fabs(v));
+        for (int e : {-110, -300, -600, 300}) {
+            std::vector<double> xs((size_t)nin);
+            for (int n = 0; n < nin; ++n) xs[(size_t)n] = std::ldexp(x[(size_t)n], e);
+            RunOut ys = run(kind, L, M, mul, hp, xs, fr);
+            const P det = P().kv("frame", fr).kv("e", e);
+            if (!ys.err.empty() || ys.y.size() != y1.y.size()) {
+                ctx.fail(site, ys.err.empty() ? fmt("%zu samples", ys.y.size()) : ys.err, fmt("%zu samples as at unit scale", y1.y.size()), P(det).kv("what", "size"));
+                continue;
+            }
+            long bad = -1, bbit = -1;
+            for (size_t i = 0; i < y1.y.size(); ++i) {
+                const double back = (double)ldexpl((ld)ys.y[i], -e);
+                if (bad < 0 && !(std::fabs(back - y1.y[i]) <= 1e-12 * ymax)) bad = (long)i;
+                if (bbit < 0 && !biteq(ys.y[i], std::ldexp(y1.y[i], e))) bbit = (long)i;
+            }
+            if (bad >= 0)
+                ctx.fail(site,
+                         fmt("input scaled by 2^%d, framing code %d: y[%ld]*2^%d = %.17g, unit-scale output %.17g (relative deviation %.3g of max|y|)", e, fr, bad, -e,
+                             (double)ldexpl((ld)ys.y[(size_t)bad], -e), y1.y[(size_t)bad], std::fabs((double)ldexpl((ld)ys.y[(size_t)bad], -e) - y1.y[(size_t)bad]) / ymax),
+                         "the unit-scale output times the same power of two (1e-12 max|y|)", P(det).kv("i", bad).kv("what", "value"));
+            else if (bbit >= 0)
+                ctx.fail(site, fmt("input scaled by 2^%d, framing code %d: y[%ld] is not bit-identical to the scaled unit output", e, fr, bbit),
+                         "bit-identical scaling of a threshold-free linear computation", P(det).kv("i", bbit).kv("what", "bitscale"));
+            else
+                ++nbit;
+        }
+    }
+    ctx.note(fmt("chain.scale bit-exact histories %s", KNAME[kind]), nbit);
+    ctx.nontrivial();
+}
+
 // "rejecting frame lengths that are not a multiple of M": a rejected call must leave the converter unchanged.  ONE object is fed
 // good frame, rejected frame (every non-multiple length <= 2M+1 in turn, must throw), good frame, rejected frame, ...; the good
 // frames' outputs must be bit-identical to those of a fresh object that is fed the good frames only (which the "chain" check ties
@@ -1010,6 +1077,16 @@ int main(int argc, char** argv) {
                         continue;
                     long_case(ctx, lc.k, lc.L, lc.M, hv ? "dense" : "default", nh, N0);
                 }
+    }
+
+    // ---- scale invariance of multi-frame histories (every configuration of the box; audio ratios with the default h)
+    for (auto& cf : confs) {
+        const int mx = std::max(cf.L, cf.M);
+        auto P0 = [&]() { return P().kv("kind", KNAME[cf.k]).kv("L", cf.L).kv("M", cf.M).kv("mul", cf.mul); };
+        if (ctx.take("chain.scale", P0().kv("h", "default").kv("nh", 0))) chain_scale_case(ctx, cf.k, cf.L, cf.M, cf.mul, "default", 0);
+        if (cf.audio || (cf.k == RESAMPLER && cf.L == 1 && cf.M == 1)) continue;
+        for (int n : {mx + 1, 4 * mx + 1})
+            if (ctx.take("chain.scale", P0().kv("h", "dense").kv("nh", n))) chain_scale_case(ctx, cf.k, cf.L, cf.M, cf.mul, "dense", n);
     }
 
     // ---- a rejected frame must not change the state (decimating classes and modes; M = 1 has no rejectable length)
